@@ -95,9 +95,87 @@ def ctor_name(n):
     return cshort(p)
 
 
+DEFAULT_PROGRAM = None
+DEFAULT_KEEP = None
+LOCAL_CRATES = ("scale_typegen::", "scale_typegen_description::")
+INLINE_MAX_DEPTH = 3
+INLINE_MAX_SIZE = 6000
+
+
+def set_default(program, keep):
+    """make every Norm built afterwards able to inline calls to repo-local helper functions that no rule names"""
+    global DEFAULT_PROGRAM, DEFAULT_KEEP
+    DEFAULT_PROGRAM, DEFAULT_KEEP = program, keep
+
+
+def rewrite(t, fn):
+    """rebuild a term bottom-up; fn(node) -> replacement or None"""
+    k = t[0]
+    if k in ("field",):
+        n = (k, rewrite(t[1], fn), t[2])
+    elif k == "proj":
+        n = (k, rewrite(t[1], fn), t[2], t[3])
+    elif k in ("elem", "try", "rest", "ret", "break", "repeat"):
+        n = (k, rewrite(t[1], fn))
+    elif k == "for":
+        n = (k, rewrite(t[1], fn), rewrite(t[2], fn))
+    elif k == "seq":
+        n = (k, [rewrite(x, fn) for x in t[1]], rewrite(t[2], fn))
+    elif k == "call":
+        n = (k, t[1], [rewrite(a, fn) for a in t[2]])
+    elif k == "closure":
+        n = (k, t[1], t[2], rewrite(t[3], fn))
+    elif k == "struct":
+        n = (k, t[1], t[2], {f: rewrite(v, fn) for f, v in t[3].items()})
+    elif k in ("tup", "array"):
+        n = (k, [rewrite(a, fn) for a in t[1]])
+    elif k == "mut":
+        effs = []
+        for e in t[3]:
+            e2 = []
+            for x in e:
+                if isinstance(x, tuple) and x and isinstance(x[0], str) and x[0] in _KINDS:
+                    e2.append(rewrite(x, fn))
+                elif isinstance(x, list):
+                    e2.append([rewrite(y, fn) for y in x])
+                else:
+                    e2.append(x)
+            effs.append(tuple(e2))
+        n = (k, t[1], rewrite(t[2], fn), effs)
+    elif k == "match":
+        n = (k, rewrite(t[1], fn), [(p, rewrite(g, fn) if g else g, rewrite(b, fn)) for p, g, b in t[2]])
+    elif k == "if":
+        n = (k, rewrite(t[1], fn), rewrite(t[2], fn), rewrite(t[3], fn))
+    elif k in ("iflet", "iflet-not"):
+        n = (k, t[1], rewrite(t[2], fn))
+    elif k == "early":
+        n = (k, [(rewrite(c, fn), rewrite(v, fn)) for c, v in t[1]], rewrite(t[2], fn))
+    elif k == "tpl":
+        n = (k, t[1], t[2], [rewrite(a, fn) for a in t[3]])
+    elif k == "fmt":
+        n = (k, [p if p[0] == "lit" else (p[0], p[1], rewrite(p[2], fn)) for p in t[1]])
+    elif k == "op":
+        n = (k, t[1], [rewrite(a, fn) for a in t[2]])
+    elif k == "cast":
+        n = (k, t[1], rewrite(t[2], fn))
+    elif k == "index":
+        n = (k, rewrite(t[1], fn), rewrite(t[2], fn))
+    elif k == "rindex":
+        n = (k, rewrite(t[1], fn), t[2])
+    else:
+        n = t
+    r = fn(n)
+    return n if r is None else r
+
+
 class Norm:
-    def __init__(self, body, syms=None):
+    def __init__(self, body, syms=None, program=None, keep=None, _stack=()):
         self.body = body
+        self.program = program if program is not None else DEFAULT_PROGRAM
+        self.keep = keep if keep is not None else DEFAULT_KEEP
+        self._stack = _stack + (body.get("path"),)
+        self._cur_depth = 0
+        self.def_ctx = {}    # local id -> (closure depth, guards) at its `let`
         self.defs = {}       # local id -> binding record
         self.mut = set()     # ids declared `mut` or by-ref-mut
         self.closure_depth = {}
@@ -151,6 +229,8 @@ class Norm:
             return
         k = n.get("k")
         if k == "SLet":
+            if n["pat"].get("k") == "Bind":
+                self.def_ctx[n["pat"]["id"]] = (depth, guards)
             if "init" in n:
                 self._bind_pat(n["pat"], ("let", n["init"]), ())
             else:
@@ -303,11 +383,140 @@ class Norm:
                             allargs = node["args"]
                         args = [("sym", "&self") if i == pos else self._t(a) for i, a in enumerate(allargs)]
                         et.append(("mutarg", cshort(node.get("callee", node.get("name", "?"))), args, gt))
-                t = ("mut", pat.get("name", "?"), t, et)
+                t = self._canon_mut(lid, ("mut", pat.get("name", "?"), t, et), effs, origin)
         finally:
             self._busy.discard(lid)
         self._memo[lid] = t
         return t
+
+    def _canon_mut(self, lid, t, effs, origin):
+        """canonical forms of simple mutable-local idioms:
+           let mut v = Vec::new(); for x in IT { v.push(X) }      ==  IT.map(|x| X).collect()
+           let mut x = A; if c { x = B(x) }                       ==  if c { B(A) } else { A }
+           let x; match s { p1 => x = a, p2 => x = b }            ==  match s { p1 => a, p2 => b }"""
+        depth, lguards = self.def_ctx.get(lid, (0, None))
+        if lguards is None:
+            return t
+        init = t[2]
+        kinds = [k for _n, k, _g in effs]
+        rel = [g[len(lguards):] if g[:len(lguards)] == lguards else None for _n, _k, g in effs]
+        if any(r is None for r in rel):
+            return t
+        # (b) push in a for loop
+        if len(effs) == 1 and kinds[0] == "mutcall" and init[0] == "call" and init[1] in ("Vec::new", "Vec::with_capacity", "vec!", "Default::default") \
+                and (init[1] != "vec!" or not init[2]):
+            node = effs[0][0]
+            if cshort(node.get("callee", "")) == "Vec::push" and len(rel[0]) == 1 and rel[0][0][0] == "for" and self._lhs_path(node["recv"]) == "":
+                it = self._t(rel[0][0][1])
+                x = self._t(node["args"][0])
+                d = depth + 1
+                hoist = False
+                if x[0] == "try":
+                    x, hoist = x[1], True
+                elif _has_try(x):
+                    x, hoist = ("call", "Ok", [x]), True
+                elem = ("elem", it)
+                es = _show(elem)
+
+                def sub(n):
+                    if n[0] == "elem" and _show(n) == es:
+                        return ("cparam", d, 0)
+                    return None
+                body = rewrite(x, sub)
+                r = ("call", "Iterator::collect", [("call", "Iterator::map", [it, ("closure", d, 1, body)])])
+                return ("try", r) if hoist else r
+        # (c) one conditional reassignment
+        if len(effs) == 1 and kinds[0] == "assign" and len(rel[0]) == 1 and rel[0][0][0] == "if" and self._lhs_path(effs[0][0]["l"]) == "" and origin[0] == "let":
+            c = self._t(rel[0][0][1])
+            pol = rel[0][0][2]
+            b = self._t(effs[0][0]["r"])
+
+            def sub2(n):
+                if n == ("sym", "<self>"):
+                    return init
+                return None
+            b = rewrite(b, sub2)
+            c = rewrite(c, sub2)
+            return ("if", c, b, init) if pol else ("if", c, init, b)
+        # (c') deferred initialisation: every effect is an assignment in its own match arm / if branch
+        if origin[0] == "uninit" and effs and all(k == "assign" for k in kinds) and all(len(r) >= 1 for r in rel):
+            first = [r[0] for r in rel]
+            if all(g[0] == "arm" for g in first) and len({show(self._t(g[1])) for g in first}) == 1 and all(len(r) == 1 for r in rel):
+                arms = [(g[2], None, self._t(n["r"])) for (n, _k, _g), g in zip(effs, first)]
+                return self._canon_match(self._t(first[0][1]), arms)
+            if len(effs) == 2 and all(g[0] == "if" for g in first) and all(len(r) == 1 for r in rel) and first[0][1] is first[1][1] and first[0][2] != first[1][2]:
+                a, b = (effs[0][0]["r"], effs[1][0]["r"]) if first[0][2] else (effs[1][0]["r"], effs[0][0]["r"])
+                return ("if", self._t(first[0][1]), self._t(a), self._t(b))
+        return t
+
+    def _canon_match(self, scr, arms):
+        """two-arm option-like matches become if-let; arms without guards are sorted by pattern (catch-all last)"""
+        if len(arms) == 1:
+            return ("match", scr, arms)
+        if len(arms) == 2 and all(g is None for _p, g, _b in arms):
+            (p1, _g1, b1), (p2, _g2, b2) = arms
+            catch = ("_", "$", "v1::None", "Option::None")
+            if p2 in catch and p1 not in catch:
+                return self._iflet(p1, scr, b1, b2)
+            if p1 in catch and p2 not in catch:
+                return self._iflet(p2, scr, b2, b1)
+        if all(g is None for _p, g, _b in arms):
+            last = [a for a in arms if a[0] in ("_", "$")]
+            rest = [a for a in arms if a[0] not in ("_", "$")]
+            if len(last) <= 1:
+                arms = sorted(rest, key=lambda a: a[0]) + last
+        return ("match", scr, arms)
+
+    def _iflet(self, pat, scr, then, els):
+        # if let Some(x) = X { Ok(x) } else { Err(e) }   ==   X.ok_or(e)
+        if pat in ("v1::Some($)", "Option::Some($)") and then[0] == "call" and then[1] == "Ok" and len(then[2]) == 1 \
+                and _show(then[2][0]) == _show(("proj", scr, pat.split("(")[0], "0")) and els[0] == "call" and els[1] == "Err" and len(els[2]) == 1:
+            return ("call", "ok_or", [scr, els[2][0]])
+        if _diverges(then) and _is_unit(els):
+            return ("early", [(("iflet", pat, scr), then)], ("lit", "()"))
+        if then == ("lit", True) and els == ("lit", False):
+            return ("iflet", pat, scr)        # matches!(x, PAT)
+        return ("if", ("iflet", pat, scr), then, els)
+
+    def _inline_call(self, callee, arg_nodes, node):
+        """term of a call to a repo-local helper that no rule names: the helper's own term with arguments substituted"""
+        if self.program is None or self.keep is None or not callee.startswith(LOCAL_CRATES):
+            return None
+        if cshort(callee) in self.keep or callee in self._stack or len(self._stack) > INLINE_MAX_DEPTH:
+            return None
+        fn = self.program.body(callee)
+        if fn is None:
+            # generic instantiations print with their substs at call sites: retry modulo generic arguments
+            import re as _re
+            base = _re.sub(r"::<[^>]*(<[^>]*>[^>]*)*>", "", callee)
+            c = self.program.crates.get(callee.split("::", 1)[0])
+            if c is not None:
+                for pth, b in c.bodies.items():
+                    if _re.sub(r"::<[^>]*(<[^>]*>[^>]*)*>", "", pth) == base:
+                        fn = b
+                        break
+        if fn is None or "body" not in fn or fn.get("dk") not in ("Fn", "AssocFn") or len(fn.get("params", [])) != len(arg_nodes):
+            return None
+        if fn["path"] in self._stack or fn.get("pub"):
+            return None       # public API functions keep their name; only private / nested helpers are transparent
+        if any(x.get("k") in ("Call", "MethodCall") and x.get("callee") == fn["path"] for x in walk(fn["body"])):
+            return None       # recursive helper
+        sub = Norm(fn, program=self.program, keep=self.keep, _stack=self._stack)
+        t = sub.term(fn["body"])
+        if len(_show(t)) > INLINE_MAX_SIZE:
+            return None
+        args = [self._t(a) for a in arg_nodes]
+        shift = self._cur_depth
+
+        def subst(n):
+            if n[0] == "param":
+                return args[n[1]] if n[1] < len(args) else None
+            if n[0] == "cparam" and shift:
+                return ("cparam", n[1] + shift, n[2])
+            if n[0] == "closure" and shift:
+                return ("closure", n[1] + shift, n[2], n[3])
+            return None
+        return _unreturn(rewrite(t, subst))
 
     def _is_mut_local_effect(self, node):
         """statement already represented as an effect inside the term of a `mut` local
@@ -455,6 +664,11 @@ class Norm:
             name = cshort(c)
             if name == "__private::format_err" and c.startswith("anyhow::"):
                 return ("call", "anyhow!", [])      # message text is not part of the term
+            if c == "proc_macro2::TokenStream::new" and not e["args"]:
+                return ("tpl", "quote", "", [])      # an empty token stream, however it is spelled
+            inl = self._inline_call(c, e["args"], e)
+            if inl is not None:
+                return inl
             if name in GENERIC_SENSITIVE and e.get("gen"):
                 name = name + "<" + _last_generic(e["gen"]) + ">"
             args = [self._t(a) for a in e["args"]]
@@ -470,9 +684,13 @@ class Norm:
                 return ("call", "vec!", args)
             if name == "Try::branch":
                 return ("try", args[0])
+            if name in ("Option::ok_or",) and len(args) == 2:
+                return ("call", "ok_or", args)
             if e.get("dk", "").startswith("Ctor") and name in ("v1::Some", "Option::Some"):
                 return ("call", "Some", args)
             if e.get("dk", "").startswith("Ctor") and name in ("v1::Ok", "Result::Ok"):
+                if len(args) == 1 and args[0][0] == "try":
+                    return args[0][1]          # Ok(x?) is x up to the error conversion
                 return ("call", "Ok", args)
             if e.get("dk", "").startswith("Ctor") and name in ("v1::Err", "Result::Err"):
                 return ("call", "Err", args)
@@ -481,8 +699,18 @@ class Norm:
             name = cshort(e.get("callee", "?::" + e["name"]))
             if name in GENERIC_SENSITIVE and e.get("gen"):
                 name = name + "<" + _last_generic(e["gen"]) + ">"
+            if e.get("callee"):
+                inl = self._inline_call(e["callee"], [e["recv"]] + e["args"], e)
+                if inl is not None:
+                    return inl
             recv = self._t(e["recv"])
             args = [self._t(a) for a in e["args"]]
+            if name == "Option::ok_or" and len(args) == 1:
+                return ("call", "ok_or", [recv, args[0]])
+            if name == "Option::ok_or_else" and len(args) == 1 and args[0][0] == "closure" and args[0][2] == 0:
+                return ("call", "ok_or", [recv, args[0][3]])
+            if name == "Option::unwrap_or_default" and not args and recv[0] == "call" and recv[1] == "then" and e.get("ty", "").endswith("TokenStream"):
+                return ("if", recv[2][0], recv[2][1], ("tpl", "quote", "", []))
             if name in TRANSPARENT and not args:
                 return recv
             if name == "bool::then" and len(args) == 1 and args[0][0] == "closure" and args[0][2] == 0:
@@ -543,7 +771,11 @@ class Norm:
             if effs:
                 tail = ("seq", effs, tail)
             if early:
-                return ("early", early, tail)
+                early2 = []
+                for c, v in early:
+                    for c2 in _split_or(c):
+                        early2.append((c2, v))
+                return ("early", early2, tail)
             return tail
         if k == "Match":
             src = e["src"]
@@ -563,7 +795,7 @@ class Norm:
             # `match x { v => body }` single irrefutable binding arm (format_ident! etc.)
             if len(arms) == 1 and e["arms"][0]["pat"].get("k") == "Bind":
                 return arms[0][2]
-            return ("match", scr, arms)
+            return self._canon_match(scr, arms)
         if k == "If":
             c = self._t(e["cond"])
             t = self._t(e["then"])
@@ -572,12 +804,21 @@ class Norm:
                 return ("early", [(c, t)], ("lit", "()"))
             if t[0] == "call" and t[1] == "Some" and len(t[2]) == 1 and el == ("def", "v1::None"):
                 return ("call", "then", [c, t[2][0]])
+            if c[0] == "iflet":
+                return self._iflet(c[1], c[2], t, el)
+            if t == ("lit", True) and el == ("lit", False):
+                return c
             return ("if", c, t, el)
         if k == "Let":
             return ("iflet", pat_repr(e["pat"]), self._t(e["init"]))
         if k == "Closure":
             d = self.closure_depth.get(e["def"], 1)
-            return ("closure", d, len(e["params"]), self._t(e["body"]))
+            old = self._cur_depth
+            self._cur_depth = d
+            try:
+                return ("closure", d, len(e["params"]), self._t(e["body"]))
+            finally:
+                self._cur_depth = old
         if k == "Struct":
             fields = {f["name"]: self._t(f["e"]) for f in e["fields"]}
             if "base" in e:
@@ -625,6 +866,53 @@ class Norm:
             else:
                 out.append(("arg", p[2], self._t(p[1])))
         return ("fmt", out)
+
+
+def _has_try(t):
+    """a `?` in t outside nested closures"""
+    if t[0] == "try":
+        return True
+    if t[0] == "closure":
+        return False
+    if t[0] in ("call",):
+        return any(_has_try(a) for a in t[2])
+    if t[0] in ("tup", "array"):
+        return any(_has_try(a) for a in t[1])
+    if t[0] in ("field", "proj", "cast"):
+        return _has_try(t[1] if t[0] != "cast" else t[2])
+    if t[0] == "struct":
+        return any(_has_try(v) for v in t[3].values())
+    if t[0] == "tpl":
+        return any(_has_try(v) for v in t[3])
+    if t[0] == "if":
+        return _has_try(t[2]) or _has_try(t[3])
+    return False
+
+
+def _split_or(c):
+    if c[0] == "op" and c[1] == "||" and len(c[2]) == 2:
+        return _split_or(c[2][0]) + _split_or(c[2][1])
+    return [c]
+
+
+def _unreturn(t):
+    """value of an inlined function body: `return v` becomes the value v"""
+    if t[0] == "ret":
+        return _unreturn(t[1])
+    if t[0] == "early":
+        res = _unreturn(t[2])
+        for c, v in reversed(t[1]):
+            if v[0] == "ret":
+                if c[0] == "iflet-not":
+                    res = ("if", ("iflet", c[1], c[2]), res, _unreturn(v[1]))
+                else:
+                    res = ("if", c, _unreturn(v[1]), res)
+            else:
+                return t
+        return res
+    if t[0] == "seq":
+        return ("seq", t[1], _unreturn(t[2]))
+    return t
 
 
 def _is_unit(t):
